@@ -124,7 +124,7 @@ def run_case(case):
                 pass
         r = render(spec, cname=cname, register=cname is None)
     except InvalidDefinition as e:
-        raise HarnessError(f"generator produced an invalid definition: {e}")
+        return outcome(False, "C18:valid-definition-rejected", f"the class statement of a valid definition raised InvalidDefinition: {e}")
     labels = set()
     if shadow_r is not None:
         labels.add("same-named-class-drawn-before")
